@@ -12,6 +12,7 @@ import (
 
 	"jsverif/internal/absint"
 	"jsverif/internal/core"
+	"jsverif/internal/rules"
 )
 
 func cmdDump(args []string) int {
@@ -32,6 +33,12 @@ func cmdDump(args []string) int {
 			}
 			return true
 		})
+	case "scan":
+		only := ""
+		if len(args) > 2 {
+			only = args[2]
+		}
+		rules.DumpScanModel(p, args[1], only)
 	case "paths":
 		inl := map[string]bool{}
 		for _, a := range args[2:] {
